@@ -29,7 +29,7 @@ func (C15) Info() core.Info {
 			"the accessor clauses have no seam on their path; they are exercised as world construction and reported here, but the claim for them is only that",
 			"type-only outputs of built parties are findable through the documented lookups (BuiltFindable)",
 		},
-		Probes:    []string{"c15_built_execs", "c15_built_target_calls", "c15_built_converter_execs", "c15_fromresult_checked", "c15_valuesets_checked", "c15_callback_error", "c15_repeat_calls", "c15_twin_compared", "s1_nonidentity_perms"},
+		Probes:    []string{"c15_built_execs", "c15_built_target_calls", "c15_built_converter_execs", "c15_fromresult_checked", "c15_valuesets_checked", "c15_callback_error", "c15_repeat_calls", "c15_own_output_set_loaded", "c15_twin_compared", "s1_nonidentity_perms"},
 		Real:      realComponents,
 		Simulated: simComponents,
 	}
@@ -176,7 +176,9 @@ func (C15) Run(c core.Case, ctx *core.Ctx) []core.Violation {
 				}
 			}
 		}
-		builtRuns := map[int]int{} // party -> number of ops it executed in
+		builtRuns := map[int]int{}     // party -> number of ops it executed in
+		var heldVals []argmapper.Value // values read from the target's own output set after an earlier load
+		var heldToks []uint64
 		for oi, res := range rt.Results {
 			if res == nil {
 				continue
@@ -221,6 +223,22 @@ func (C15) Run(c core.Case, ctx *core.Ctx) []core.Violation {
 				ctx.St.Inc("c15_callback_error")
 				if res.Err != firstErr.ErrValue() {
 					add("built-callback-error-not-returned", "Call", fmt.Sprintf("op %d: the callback of built party %d returned %q, Call returned %s", oi, firstErr.Party, firstErr.ErrValue().Error(), errStr(res.Err)))
+				}
+			}
+			if res.Err == nil && texec != nil {
+				// loading a later result into the Func's own output set must not rewrite
+				// values a caller read from it after an earlier load
+				if own := rt.Func(tgt).Output(); own != nil && res.Raw != nil && len(texec.Out) > 0 {
+					if pn, _, _, _ := core.Guard(func() { _ = own.FromResult(*res.Raw) }); !pn {
+						for i, hv := range heldVals {
+							if id, _, _ := world.Decode(hv.Value); i < len(heldToks) && id != heldToks[i] {
+								add("value-read-earlier-changed-by-later-load", "ValueSet", fmt.Sprintf("op %d: value %d read from the function's output set after an earlier result was token %d, now reads %d", oi, i, heldToks[i], id))
+							}
+						}
+						heldVals = own.Values()
+						heldToks = append([]uint64{}, texec.Out...)
+						ctx.St.Inc("c15_own_output_set_loaded")
+					}
 				}
 			}
 			if res.Err == nil && texec != nil && w.Parties[tgt].InForm == world.FormBuilt {
